@@ -22,7 +22,7 @@ TIERS = {
     'quick': {'workers': 8, 'cases': 750, 'timeout': 600},
     'thorough': {'workers': 16, 'cases': 7000, 'timeout': 3000},
 }
-REQUIRED_BUCKETS = ['tree:depth3+', 'tree:file-included-twice', 'tree:fanout2+', 'conflict:before-include', 'conflict:after-include', 'conflict:between-includes',
+REQUIRED_BUCKETS = ['tree:depth3+', 'tree:file-included-twice', 'tree:same-include-twice-in-one-text', 'tree:fanout2+', 'conflict:before-include', 'conflict:after-include', 'conflict:between-includes',
                     'search:first-location-wins', 'search:later-location', 'search:reader-order-decides', 'search:memory-reader', 'search:absolute-name',
                     'search:package-slash', 'search:package-dot', 'missing:include', 'missing:top-level', 'imports:per-file', 'entry:parse_config_file',
                     'entry:files_and_bindings', 'entry:parse_config-with-include', 'finalize:true', 'finalize:false', 'unknown:raises', 'unknown:skipped', 'unknown:skipped-by-list', 'unknown:in-included-file', 'unknown:raises-not-in-list',
@@ -71,7 +71,11 @@ def gen_file(rng, fid, depth, maxdepth, state):
     elif r < 0.6:
       stmts.append(['import', rng.choice(['os', 'json', 'string', 'os.path', 'collections.abc'])])
     elif depth < maxdepth and nchild < 3 and state['count'] < 7:
-      if state['files'] and rng.random() < 0.25:
+      own = [st[1] for st in stmts if st[0] == 'include']
+      if own and rng.random() < 0.3:
+        cid = rng.choice(own)                          # the same include statement written a second time in this very text
+        state['twice'] = state['same_text_twice'] = True
+      elif state['files'] and rng.random() < 0.25:
         cid = rng.choice(sorted(state['files']))      # include an existing file again (never an ancestor: ids grow downwards)
         if cid <= fid:
           continue
@@ -89,7 +93,7 @@ def gen_file(rng, fid, depth, maxdepth, state):
 
 def iter_cases(ctx, rng, n):
   for i in range(n):
-    state = {'count': 0, 'files': {}, 'twice': False}
+    state = {'count': 0, 'files': {}, 'twice': False, 'same_text_twice': False}
     state['files'][0] = None
     top = gen_file(rng, 0, 1, rng.choice([1, 2, 3, 4]), state)
     state['files'][0] = top
@@ -108,7 +112,7 @@ def iter_cases(ctx, rng, n):
     yield {'files': {str(k): v for k, v in state['files'].items()}, 'nloc': nloc, 'nread': nread, 'place': {str(k): v for k, v in place.items()},
            'missing': missing, 'entry': rng.choice(['parse_config_file', 'files_and_bindings', 'parse_config-with-include']),
            'finalize': rng.random() < 0.5, 'unknown': rng.choice([None, None, 'raise', 'skip', 'skip-list', 'list-without-it']),
-           'unknown_in': str(rng.choice(sorted(state['files']))), 'twice': state['twice']}
+           'unknown_in': str(rng.choice(sorted(state['files']))), 'twice': state['twice'], 'same_text_twice': state['same_text_twice']}
 
 
 class World:
@@ -278,6 +282,8 @@ def _run(ctx, case, w, gin, gc):
     ctx.bucket('tree:depth3+')
   if case['twice']:
     ctx.bucket('tree:file-included-twice')
+  if case.get('same_text_twice'):
+    ctx.bucket('tree:same-include-twice-in-one-text')
   for fid, f in files.items():
     kinds = [st[0] for st in f['stmts']]
     if kinds.count('include') >= 2:
